@@ -16,7 +16,7 @@ from vf.env.base import MiniCF
 
 import cflib.utils.encoding as enc
 from cflib.crazyflie.localization import Localization
-from cflib.crazyflie.mem.trajectory_memory import _CompressedBase, CompressedStart
+from cflib.crazyflie.mem.trajectory_memory import _CompressedBase, CompressedStart, CompressedSegment
 from cflib.crazyflie.mem.led_driver_memory import LEDDriverMemory
 from cflib.crazyflie.mem.led_timings_driver_memory import LEDTimingsDriverMemory
 from cflib.crtp.crtpstack import CRTPPacket
@@ -26,7 +26,7 @@ FUNCTIONS = ['cflib.utils.encoding:fp16_to_float', 'cflib.utils.encoding:decompr
              'cflib.crazyflie.localization:Localization._incoming',
              'cflib.crazyflie.mem.trajectory_memory:_CompressedBase._encode_spatial',
              'cflib.crazyflie.mem.trajectory_memory:_CompressedBase._encode_yaw',
-             'cflib.crazyflie.mem.trajectory_memory:CompressedStart.pack',
+             'cflib.crazyflie.mem.trajectory_memory:CompressedStart.pack', 'cflib.crazyflie.mem.trajectory_memory:CompressedSegment.pack',
              'cflib.crazyflie.mem.led_driver_memory:LEDDriverMemory.write_data',
              'cflib.crazyflie.mem.led_timings_driver_memory:LEDTimingsDriverMemory.write_data']
 STUBS = ['numpy shims in the translator: np.zeros(n) -> list of FP zeros, np.sqrt -> fp.sqrt, np.array(list)/scalar -> '
@@ -751,6 +751,39 @@ def h_compressed_start(sym):
         sym.goal('packed')
 
 
+def h_compressed_segment(sym):
+    """CompressedSegment.pack: one symbolic coordinate/angle inside an element of 1, 3 or 7 control points: millimetres / tenths
+    of a degree as int16 in place, type bits and duration intact; a value outside the int16 range raises (never wraps)."""
+    axis, ln = sym.B['axis'], sym.B['len']
+    x = sym.f64('x', finite=True, lo=-100.0, hi=100.0)
+    elems = [[0.5], [0.25, -0.5, 1.0], [], [0.1]]
+    base = [0.125 * (k + 1) for k in range(ln)]
+    pos = sym.B.get('pos', ln - 1)
+    base[pos] = x
+    elems[axis] = base
+    conv = (lambda v: int(v * 1000)) if axis < 3 else (lambda v: int(math.degrees(v) * 10))
+    exp_parts = []
+    for a, el in enumerate(elems):
+        c = (lambda v: int(v * 1000)) if a < 3 else (lambda v: int(math.degrees(v) * 10))
+        exp_parts += [c(v) for v in el]
+    tcode = {0: 0, 1: 1, 3: 2, 7: 3}
+    types = sum(tcode[len(el)] << (2 * a) for a, el in enumerate(elems))
+    try:
+        ref = struct.pack('<BH' + 'h' * len(exp_parts), types, 1500, *exp_parts)
+    except struct.error:
+        ref = None
+    try:
+        got = CompressedSegment(1.5, *elems).pack()
+    except struct.error:
+        got = None
+    if ref is None:
+        assert got is None, 'out-of-range value was packed (wrapped) instead of raising'
+        sym.goal('overflow-raises')
+    else:
+        assert got is not None and list(got) == list(ref), 'segment bytes differ from the firmware layout'
+        sym.goal('packed')
+
+
 HARNESSES = [
     SmtHarness('fp16', h_fp16, _fp16_replay, goals=('float-path',), timeout=(300, 600)),
     SmtHarness('fp16-signed', h_fp16, _fp16_replay, quick=dict(signed=True), goals=('float-path',), timeout=(300, 600)),
@@ -772,5 +805,7 @@ HARNESSES = [
                 timeout=(600, 1800)) for i, c in enumerate('rgb')] + [
     SmtHarness('rgb565-levels', h_rgb565_levels, lambda v, B: _levels_concrete(v, B), goals=('encoded',), timeout=(300, 900)),
     Harness('range_report', h_range_report, quick=dict(n=2), thorough=dict(n=4), goals=('decoded',), timeout=(300, 1800), smt_timeout=1.5),
+] + [Harness(f'compressed_segment[{n}]', h_compressed_segment, quick=dict(axis=a, len=l), goals=('packed', 'overflow-raises'),
+             timeout=(400, 900), smt_timeout=1.5, per_path=300.0) for n, a, l in (('x,1', 0, 1), ('z,7', 2, 7), ('yaw,3', 3, 3))
 ] + [Harness(f'compressed_start[{i}]', h_compressed_start, quick=dict(which=i), goals=('packed', 'overflow-raises'),
              timeout=(400, 900), smt_timeout=1.5, per_path=300.0) for i in range(4)]
